@@ -295,8 +295,12 @@ def gen_ace(rng, platform: str, version: str = "", *, small=None, allow_group=Tr
     parts.append(dst["text"])
     if dport:
         parts.append(dport["text"])
-    parts.extend(flags)
-    parts.extend(logs)
+    opt_toks = list(flags) + list(logs)
+    if flags and logs and rng.random() < 0.25:
+        # the log keyword before or between the flag tokens (options come in any order)
+        pos = rng.randint(0, len(flags) - 1) if all(f in names.TCP_FLAGS for f in flags) else 0
+        opt_toks = list(flags[:pos]) + list(logs) + list(flags[pos:])
+    parts.extend(opt_toks)
     text = seq_txt + " ".join(parts)
     if ws:
         text = messy(rng, text)
